@@ -19,6 +19,7 @@ harness and rendered as a Gallina `case` term):
   [13, ctx, emax, raddr, cid?, family, [change..], probe]   a history of changes through one ExportMap
   [14, ..as 9.., [accept_all, [rt8..]]]   process_nlri_change with a real RtcFilter (from_paths)
   [15, [[local_pref, filtered, nexthop_invalid]..]]   the change stream of the real Table::restale_llgr for one destination
+  [16, ..as 11..]                         the scenario of 11 through the real TableManager (insert_route, event channel, mark_llgr_stale)
   [12, ..as 9.., policy]                  process_nlri_change with a real one-statement table::PolicyAssignment
                                           policy = [nh_action?, med_action?, statement disposition, default disposition, as_prepend?]
 with attr = [code, flags, kind(0 Val,1 Bin,2 Opaque), payload], ip = [0|1, bytes],
@@ -228,7 +229,7 @@ def case_coq(c):
     elif t == 13:
         body = 'CHistory %s %d %s %s %s %s' % (c_ctx(c[1]), c[2], c_ip(c[3]), copt(c[4], c_num),
                                                cl([c_change(ch) for ch in c[6]]), cbytes(c[7]))
-    elif t == 11:
+    elif t in (11, 16):
         body = 'CLlgrScenario %s %d %s %s %s %s %s' % (c_ctx(c[1]), c[2], c_ip(c[3]), copt(c[4], c_num),
                                                        c_src(c[5])[len('(SrcPeer '):-1], copt(c[6], c_nh), c_attrs(c[7]))
     else:
@@ -965,6 +966,50 @@ class Prop:
                     add('cls_rtc_filter', [14] + self.a_one(x, 1, [], p, em=em) + [rtc])
         attrs = [[ORIGIN, 0x40, 0, 0], [EXT_COMMUNITY, 0xC0, 1, rt2], self.a_path_attr([(2, [65002])]), [EXT_COMMUNITY, 0xC0, 1, rt1]]
         add('cls_rtc_filter', [14] + self.a_one(x, 2, [], [1, self.a_src(EBGP), [[0, [10, 0, 0, 9]]], attrs]) + [[0, [rt1]]])
+        # ---- LOCAL_PREF injection: every position the new attribute can take
+        lp_lists = [[], [[ORIGIN, 0x40, 0, 0]], [[ORIGIN, 0x40, 0, 0], self.a_path_attr([(2, [65002])]), [MED, 0x80, 0, 1]],
+                    [[ORIGIN, 0x40, 0, 0], self.a_path_attr([(2, [65002])]), [MED, 0x80, 0, 1], [COMMUNITY, 0xC0, 1, oth]],
+                    [[COMMUNITY, 0xC0, 1, oth]], [[MED, 0x80, 0, 1], [ATOMIC, 0x40, 1, []]],
+                    [[ORIGIN, 0x40, 0, 0], [LOCAL_PREF, 0x40, 0, 0]], [[LOCAL_PREF, 0x40, 0, 4294967295], [ORIGIN, 0x40, 0, 0]],
+                    [[COMMUNITY, 0xC0, 1, oth], [ORIGIN, 0x40, 0, 0]], [[ATOMIC, 0x40, 1, []], [MED, 0x80, 0, 1], [ORIGIN, 0x40, 0, 0]]]
+        for l in lp_lists:
+            add('cls_local_pref_positions', [7, l])
+            for role in (IBGP, RRC):
+                add('cls_local_pref_positions', [3, self.a_ctx(role), l])
+                add('cls_local_pref_positions', [10, self.a_ctx(role), self.OWN_RID, [self.OWN_CID], l])
+        # ---- unknown attributes next to a missing AS_PATH (the locally originated route)
+        for role in ROLES:
+            add('cls_unknown_without_as_path', [3, self.a_ctx(role, 65100), [[ORIGIN, 0x40, 0, 0], [99, 0xc0, 2, [1]], [200, 0x80, 2, [2]]]])
+        # ---- the family map of the wrong kind for the send-max, and no map at all
+        for emax, em in ((1, [2, [[1, [1, 2]]]]), (1, [2, []]), (2, [1, [1]]), (2, [1, []]), (2, [0]), (1, [0]), (3, [1, [1, 2]])):
+            for od in ([], [labelled[0]], [labelled[1], labelled[0]], [labelled[2], labelled[0]]):
+                for rep in ([], [1]):
+                    add('cls_process_map_kind', [9, x, emax, self.A_RX, [], [IPV4, 1, 1, 1, rep, od], em, [1, 2]])
+        # ---- every disposition of the statement x default of the assignment
+        for sd in (0, 1, 2):
+            for dd in (0, 1, 2):
+                for emax in (1, 2):
+                    for sent in (0, 1):
+                        em = ([1, [1]] if sent else [1, []]) if emax == 1 else ([2, [[1, [1]]]] if sent else [2, []])
+                        add('cls_policy_dispositions', [12] + self.a_one(x, emax, [], labelled[0], em=em) + [[[], [], sd, dd, []]])
+        # ---- fixed histories: announce, replace, the LLGR period begins (03ea310 stream), withdraw
+        for d in (EBGP, IBGP):
+            for emax in (1, 2):
+                sk = RRC if d == IBGP else EBGP
+                pa = [1, self.a_src(sk), [[0, [10, 0, 0, 9]]], [[ORIGIN, 0x40, 0, 0], self.a_path_attr([(2, [65002])])]]
+                pb = [1, self.a_src(sk), [[0, [10, 0, 0, 9]]], [[ORIGIN, 0x40, 0, 1], self.a_path_attr([(2, [65002, 65003])])]]
+                ps = [1, self.a_src(sk, 1), [[0, [10, 0, 0, 9]]], pb[3]]
+                p2 = [2, self.a_src(EBGP if d == EBGP else RRC, 0, [0, [10, 0, 0, 3]]), [[0, [10, 0, 0, 8]]], pa[3]]
+                hist = [[IPV4, 1, 1, 1, [], [pa]], [IPV4, 1, 1, 1, [1], [pb]], [IPV4, 1, 0, 1, [], [pb, p2]],
+                        [IPV4, 1, 1, 1, [1], [ps, p2]], [IPV4, 1, 1, 1, [], [p2]], [IPV4, 1, 1, 1, [], []],
+                        [IPV4, 2, 1, 1, [], [pa]], [IPV4, 1, 1, 1, [], []]]
+                for n in range(1, len(hist) + 1):
+                    add('cls_fixed_histories', [13, self.a_ctx(d), emax, self.A_RX, self.cid_for(d), IPV4, hist[:n], [1, 2]])
+        # ... the real-table scenario once more through the real TableManager (insert_route, the
+        # neighbour's event channel, mark_llgr_stale)
+        for cls_, case_ in list(out):
+            if cls_ == 'cls_llgr_no_llgr_real_table':
+                add('cls_llgr_no_llgr_table_manager', [16] + case_[1:])
         return out
 
     def fingerprint_changed(self):
@@ -1252,7 +1297,7 @@ class Prop:
             lists = [c[4]]
         elif t in (9, 12, 14) and c[1][0] in (IBGP, RRC):
             lists = [p[3] for p in c[5][5]]
-        elif t == 11 and c[1][0] in (IBGP, RRC):
+        elif t in (11, 16) and c[1][0] in (IBGP, RRC):
             lists = [c[7]]
         elif t == 13 and c[1][0] in (IBGP, RRC):
             lists = [p[3] for ch in c[6] for p in ch[5]]
@@ -1275,7 +1320,7 @@ class Prop:
         if t in (9, 12, 13, 14):
             ops = [[o[0], o[1], o[2], o[3], srt(o[4]), o[5]] if o[0] == 1 else o for o in obs[0]]
             return [ops, obs[1]]
-        if t == 11:
+        if t in (11, 16):
             return [[[o[0], o[1], o[2], o[3], srt(o[4]), o[5]] if o[0] == 1 else o for o in ph] for ph in obs]
         return obs
 
@@ -1374,9 +1419,11 @@ class Prop:
             return None
         if t == 13:
             return self.oracle_history(c, obs)
-        if t == 11:
+        if t in (11, 16):
+            if not attrs_wf(c[7]):
+                return None
             if obs == [-1]:
-                return 'LLGR scenario panicked' if attrs_wf(c[7]) else None
+                return 'LLGR scenario panicked'
             # the neighbour's view after both phases
             view = None
             for op in obs[0] + obs[1]:
@@ -1609,7 +1656,7 @@ class Prop:
             return (t, c[1][0], c[1][4] != 0, min(c[2], 2), bool(c[4]), srcs, ops, json.dumps(c[8]) if t == 12 else '')
         if t == 10:
             return (t, c[1][0], bool(c[3]), obs == [], self._shape(c[4]))
-        if t == 11:
+        if t in (11, 16):
             return (t, c[1][0], c[5][5], c[2], bool(c[4]), len(obs[0]), len(obs[1])) if obs[0] else None
         if t == 15:
             return (t, json.dumps([sp[1:] for sp in c[1]]), len(obs)) if obs != [-1] else None
@@ -1619,14 +1666,14 @@ class Prop:
 
     def classify(self, c, obs):
         names = ['prepend', 'strip_confed', 'is_as_loop', 'export_attrs', 'pre_policy_defaults', 'rr_reflect',
-                 'llgr_stale', 'inject_local_pref', 'suppress_predicates', 'process_nlri_change', 'rx_update', 'llgr_scenario', 'process_nlri_change_policy', 'history', 'process_nlri_change_rtc', 'restale_llgr_stream']
+                 'llgr_stale', 'inject_local_pref', 'suppress_predicates', 'process_nlri_change', 'rx_update', 'llgr_scenario', 'process_nlri_change_policy', 'history', 'process_nlri_change_rtc', 'restale_llgr_stream', 'llgr_scenario_table_manager']
         tags = ['op_' + names[c[0]]]
         cls = getattr(self, '_cls', {}).get(id(c))
         if cls:
             tags.append(cls)
         if obs == [-1]:
             tags.append('panic')
-        if c[0] in (3, 4, 9, 10, 11, 12, 13, 14):
+        if c[0] in (3, 4, 9, 10, 11, 12, 13, 14, 16):
             tags.append('dest_' + ROLE_NAMES[c[1][0]])
         # which branch of the model the case drives
         t = c[0]
